@@ -15,8 +15,8 @@ def readerOk (r : Reader) : Bool := shaped r.kind r.doc && payloadOk r.kind r.do
 theorem C12_step_inv (r : Reader) (ro : Xml) (h : HistInv ro = true) (hr : readerOk r = true) :
     holdsC12 ⟨ro, r.doc, r.kind⟩ (addK r.kind ro r.doc) = true ∧ HistInv (addK r.kind ro r.doc).ro = true := by
   simp only [readerOk, Bool.and_eq_true] at hr
-  obtain ⟨hw, ht⟩ := histInv_implies_dom ro h
-  refine ⟨C12_add ⟨ro, r.doc, r.kind⟩ (by simp [DomC12, hw, ht, hr.1]), ?_⟩
+  obtain ⟨hw, _⟩ := histInv_implies_dom ro h
+  refine ⟨C12_add ⟨ro, r.doc, r.kind⟩ (by simp [DomC12, hw, hr.1]), ?_⟩
   exact histInv_preserved ⟨ro, r.doc, r.kind⟩ h hr.1 hr.2
 
 /-- C12 (histories): from any running order satisfying the history invariant, a non-strict
